@@ -2,7 +2,9 @@ package checks
 
 import (
 	"fmt"
+	"math/rand"
 	"sort"
+	"strconv"
 	"time"
 
 	"verif/core"
@@ -21,7 +23,7 @@ func init() {
 		Rule: "cases are (declarations, spec, argv): specs drawn from the spec grammar (depth<=2, every operator, folded groups, OPTIONS, annotations, optional spec-level --, optional env-backed options), " +
 			"argv = a derivation of the spec, option runs shuffled, random spellings/folding, half of them mutated (drop/dup/swap/insert -- or one of ~50 junk tokens); " +
 			"non-trivial = spec with >=2 operators and argv with >=2 tokens, claimed by the reference (outside the unclaimed zones); distinct by (decl, spec, argv). " +
-			"Each program's compiled state graph is additionally compared for exact language equality with the reference automaton (unbounded input length).",
+			"One program in ten is tiny and drawn over four names that are grouped into options in two different ways, so that identical spec strings with different meanings meet in one process. Each program's compiled state graph is additionally compared for exact language equality with the reference automaton (unbounded input length).",
 		Assumptions: []string{
 			"reference semantics of DESIGN.md section 3.2/3.3 (independent implementation: own reader, Thompson automaton, memoised matcher)",
 			"unclaimed zones are counted, not judged: -ab=v clusters, groups satisfiable by env alone, spec-level -- with unmatched adjacent occurrences, greedy-vs-regex group readings that differ",
@@ -40,6 +42,12 @@ func runC01(c *core.Ctx) {
 		cfg.MaxRep = 12
 	}
 	p := progFor(c.Seed, "C01", pi, cfg)
+	if pi%10 == 9 {
+		// tiny programs over a handful of names grouped into options in two different ways: byte-identical spec strings
+		// with different meanings meet in the same worker process
+		p = gen.TinyProg(rand.New(rand.NewSource(core.Mix(c.Seed, c.Index/2))))
+		c.Inc("tiny_programs")
+	}
 	nfa, nfaR := BuildNFA(p, false), BuildNFA(p, true)
 	if c.Index%argvPerProg == 0 {
 		structural(c, p)
@@ -57,7 +65,25 @@ func runC01(c *core.Ctx) {
 	d := descOf(p, argv)
 	c.Journal(d)
 	t0 := time.Now()
-	obs := runOnceOrTwice(c, p, argv, cfg)
+	var obs *drive.Obs
+	if c.Index%4 == 3 {
+		// declared with the built-in Bool/String/Strings variables instead of recording types: acceptance must not depend
+		// on what kind of variable receives the values (as long as every value given to a flag is a boolean)
+		for _, it := range func() []gen.Item { its, _ := gen.ReadAll(p, argv); return its }() {
+			if it.Oc != nil && it.Oc.Opt.Flag {
+				if _, err := strconv.ParseBool(it.Oc.Val); err != nil {
+					c.Inc("builtin_skipped_non_boolean_flag_value")
+					return
+				}
+			}
+		}
+		app := drive.Single(p)
+		app.Builtin = true
+		obs = drive.Run(app, argv)
+		c.Inc("declared_with_builtin_types")
+	} else {
+		obs = runOnceOrTwice(c, p, argv, cfg)
+	}
 	if c.Replay {
 		fmt.Printf("library: %v accepted=%v err=%v\n", time.Since(t0), obs.Accepted(), obs.Err)
 	}
